@@ -205,6 +205,8 @@ MUT_TRACKED = {"alloc::vec::Vec<u8>", "alloc::string::String", "core::option::Op
                "core::option::Option<ciborium::value::Value>"}
 
 
+FN_TRAIT_CALLS = ("core::ops::function::FnOnce::call_once", "core::ops::function::FnMut::call_mut", "core::ops::function::Fn::call")
+
 class Prov:
     """Per-function provenance engine."""
 
@@ -344,6 +346,17 @@ class Prov:
             # a call through a function pointer / Fn value: the callee is a value like any other
             name = "<indirect>"
             args = (self.operand_term(t["func"], bb, "term"),) + args
+        if name in FN_TRAIT_CALLS and len(args) == 2 and args[1][0] == "tuple":
+            f0 = args[0]
+            while f0[0] in ("ref", "deref"):
+                f0 = f0[1]
+            if f0[0] == "fn" and (f0[2] in self.prog.fns or f0[2].startswith("<") or "::" in f0[2]):
+                # a named function handed to a generic `F: FnOnce(..)` parameter and called there: the direct call it stands for
+                # (enum / tuple-struct constructors used as function values are the literals they build)
+                from .codec import apply_fn
+                v = apply_fn(self.prog, f0, list(args[1][1]))
+                if v is not None:
+                    return v
         inl = inline_pure_helper(self.prog, name, args, self.fn.key)
         if inl is not None:
             return inl
